@@ -1,9 +1,10 @@
 use crate::core::driver::Prop;
 
+pub mod c09;
 pub mod c10;
 
 pub fn all() -> Vec<Box<dyn Prop>> {
-    vec![Box::new(c10::C10)]
+    vec![Box::new(c09::C09), Box::new(c10::C10)]
 }
 
 /// Developer utilities (`verif dbg <what> ...`).
